@@ -75,8 +75,14 @@ mod files {
         type Error = Error;
 
         fn try_from(value: WireFileTransfersSet) -> Result<Self> {
-            let uploads: FileSet = value.uploads.unwrap().try_into()?;
-            let downloads: FileSet = value.downloads.unwrap().try_into()?;
+            let uploads: FileSet = value
+                .uploads
+                .ok_or_else(crate::bindings::missing_field)?
+                .try_into()?;
+            let downloads: FileSet = value
+                .downloads
+                .ok_or_else(crate::bindings::missing_field)?
+                .try_into()?;
             Ok(Self { uploads, downloads })
         }
     }
